@@ -1,7 +1,23 @@
 (* Properties/C06.v — Watch channels: no missed change, no early or spurious-abort wake-up.
-   First layer (DB/Model.v): channels close only in the notify / init-close steps of a committing
-   actor. The invariants (closed => a newer version is published; published channels are open) are
-   in DB/Invariants.v (in progress). *)
+   Three layers, composed at the end of this file:
+   (i)   DB/Model.v (all schedules): channels close only in the notify / init-close steps of a COMMITTING
+         writer, after the root store (C06_close_after_store, C06_published_open, C06_wake_sees_newer,
+         C06_abort_closes_nothing ...).
+   (ii)  Table/WatchFootprint.v (the table model): every watch query through a part index has a FOOTPRINT, a
+         set of index keys inside the coverage of the handle returned with the answer (tree.Get(key) /
+         tree.Prefix(search key) / root channel). The answer is a function of the bindings of the footprint keys
+         (C06_query_result_local_to_footprint); hence a write transaction that changes the answer inserts,
+         removes or re-binds a footprint key in the queried index
+         (C06_result_change_implies_footprint_key_change). LPM indexes: one index-wide channel, trivial version.
+   (iii) Part/Footprint.v + Table/WatchCompose.v (the radix-tree model, on top of the C12 history theorems): if the
+         maps denoted by the index's tree before and after a transaction differ at a key the handle covers, the
+         handle's channel is in the set closed by the transaction's Notify (C06_changed_key_closes_handle); composed
+         with (ii): a Commit that changes a query's result closes the channel returned with the earlier answer
+         (C06_changed_result_closes_query_channel), also over any chain of committed transactions
+         (C06_changed_result_closes_query_channel_history).
+   Not covered: handles taken from a write transaction's own uncommitted tree (Txn.Clone inside the WriteTxn);
+   the link "the set closed by the tree's Notify is closed in the notify step of the committing actor" is the
+   modelling correspondence between DB/Model.v a_notify and Part/Model.v txn_notify (write_txn.go Commit). *)
 From Coq Require Import Arith PeanoNat.
 From SV Require Import DB.Model DB.Proofs.
 Open Scope N_scope.
@@ -96,4 +112,180 @@ Proof.
   - intros ik [<-|[<-|[]]]; cbn; repeat split; try (intros x Hx; cbn in Hx; intuition (subst; cbn; auto)).
   - cbn. repeat constructor; cbn; intuition discriminate.
   - vm_compute. repeat split; auto.
+Qed.
+
+(* ==== table level and radix-tree level (Table/WatchFootprint.v, Part/Footprint.v, Table/WatchCompose.v) =========
+   From here on: Table/Model.v (tables, queries, write operations) and Part/Model.v (radix trees, channels). *)
+From SV Require Import Base.Bytes Base.OrdMap KeyEnc.Model.
+From SV Require Import Part.Model Part.Refine Part.Watch Part.Fresh Part.Footprint.
+From SV Require Import Table.Model Table.Queries Table.WatchFootprint Table.WatchCompose.
+Open Scope N_scope.
+
+(* (3) LOCALITY. q: a watch query through a part index (Get / List / Prefix / LowerBound through the primary,
+   revision, unique or non-unique index, or All); q_handle q = (the index it reads, the handle returned: the channel
+   of tree.Get(key), of tree.Prefix(search key), or the root channel). Two tables whose queried index binds every
+   key of the footprint fp q alike (same presence, same object including its revision) give the same answer; and the
+   footprint lies inside the set of keys the handle covers. *)
+Theorem C06_query_result_local_to_footprint : forall d d' tab tab' q ik h t t',
+  q_handle q = Some (ik, h) ->
+  om_sorted (index_of ik t) -> om_sorted (index_of ik t') ->
+  (forall K, fp q K = true -> om_get K (index_of ik t) = om_get K (index_of ik t')) ->
+  run_query d tab q t = run_query d' tab' q t'.
+Proof. exact query_result_local. Qed.
+Print Assumptions C06_query_result_local_to_footprint.
+
+Theorem C06_footprint_inside_handle_coverage : forall q ik h K,
+  q_handle q = Some (ik, h) -> fp q K = true -> h_covers h K = true.
+Proof. exact fp_covered. Qed.
+Print Assumptions C06_footprint_inside_handle_coverage.
+
+(* the footprints by query kind: unique Get/List = the key; non-unique Get/List = the composite keys
+   "escaped key, separator, ..." ; Prefix = the keys with prefix (escaped) q *)
+Theorem C06_footprints : forall k key K idKey pk s,
+  (is_unique k = true -> (fp (QGet k key) K = true <-> fp_get_unique idKey key K) /\
+                         (fp (QList k key) K = true <-> fp_get_unique idKey key K)) /\
+  (is_unique k = false -> len (enc pk) < 65536 ->
+     (fp (QGet k key) (nuk pk s) = true <-> fp_nonunique key (nuk pk s)) /\
+     (fp (QList k key) (nuk pk s) = true <-> fp_nonunique key (nuk pk s))) /\
+  (fp (QPrefix k key) K = true -> fp_prefix (is_unique k) key K).
+Proof.
+  intros k key K idKey pk s. split; [|split].
+  - intros U. exact (fp_get_unique_spec k key K idKey U).
+  - intros U L. cbn [fp]. rewrite U. split; exact (fp_nonunique_spec key pk s L).
+  - exact (fp_prefix_spec k key K).
+Qed.
+Print Assumptions C06_footprints.
+
+(* LPM indexes return one index-wide channel: the footprint is the whole index *)
+Theorem C06_lpm_query_result_local : forall d d' tab tab' q u t t', lq_index q = Some u ->
+  lpm_idx u t = lpm_idx u t' -> run_query d tab q t = run_query d' tab' q t'.
+Proof. exact lpm_query_result_local. Qed.
+Print Assumptions C06_lpm_query_result_local.
+
+(* (4) RESULT CHANGE => FOOTPRINT KEY CHANGE. t' = twrun t ws: the table after ANY sequence ws of write operations
+   (Insert / Modify / CompareAndSwap / Delete / CompareAndDelete / DeleteAll; twrun is what Table/Model.v step does to
+   the locked table of the open WriteTxn: C06_twrun_is_model_step). If the answer of q differs, a key K of q's
+   footprint, covered by the returned handle, was inserted, removed or re-bound in the index q reads. *)
+Theorem C06_result_change_implies_footprint_key_change : forall d d' tab tab' q ik h t ws,
+  q_handle q = Some (ik, h) -> idx_sorted t ->
+  run_query d tab q t <> run_query d' tab' q (twrun t ws) ->
+  exists K, fp q K = true /\ h_covers h K = true /\
+            binding_change (om_get K (index_of ik t)) (om_get K (index_of ik (twrun t ws))).
+Proof. exact write_txn_result_change. Qed.
+Print Assumptions C06_result_change_implies_footprint_key_change.
+
+Theorem C06_twrun_is_model_step : forall ws d es old tab t,
+  d_txn d = Some (es, old) -> nth_error es tab = Some (t, true) ->
+  exists es', d_txn (fst (Table.Model.run d (map (twop tab) ws))) = Some (es', old) /\
+              nth_error es' tab = Some (twrun t ws, true).
+Proof. exact run_twrites. Qed.
+Print Assumptions C06_twrun_is_model_step.
+
+Theorem C06_lpm_result_change_implies_index_change : forall d d' tab tab' q u t ws, lq_index q = Some u ->
+  run_query d tab q t <> run_query d' tab' q (twrun t ws) -> lpm_idx u t <> lpm_idx u (twrun t ws).
+Proof. exact write_txn_lpm_result_change. Qed.
+Print Assumptions C06_lpm_result_change_implies_index_change.
+
+(* (5a) the radix tree. T: a committed tree (tree_inv: well-formed, ids and channel accounting as every Commit
+   re-establishes them: C06_tree_invariant_kept); h: a handle taken on T; ops: all operations of the next transaction.
+   If the map denoted by the committed tree differs from the map denoted by T at a key h covers, h's channel is in the
+   set closed by the transaction's Notify. *)
+Theorem C06_changed_key_closes_handle : forall t next ops h,
+  tree_inv t next ->
+  let xe := fold_left wstep ops (tree_txn t next) in
+  (exists K, h_covers h K = true /\ om_get K (abs_tree (snd (txn_commit xe))) <> om_get K (abs_tree t)) ->
+  In (h_chan t h) (snd (txn_notify xe)).
+Proof. exact changed_key_closes_handle. Qed.
+Print Assumptions C06_changed_key_closes_handle.
+
+Theorem C06_tree_invariant_kept : forall ro next0 t next ops,
+  (0 < next0 -> tree_inv (fst (tree_new ro next0)) (next0 + 1)) /\
+  (tree_inv t next ->
+   let xe := fold_left wstep ops (tree_txn t next) in
+   tree_inv (snd (txn_commit xe)) (s_next (t_st (fst (txn_commit xe)))) /\
+   abs_tree (snd (txn_commit xe)) = fold_left mstep ops (abs_tree t) /\
+   next <= s_next (t_st (fst (txn_commit xe)))).
+Proof. exact (fun ro next0 t next ops => conj (tree_inv_new ro next0) (commit_tree_inv t next ops)). Qed.
+Print Assumptions C06_tree_invariant_kept.
+
+(* (5) COMPOSED, one write transaction. A reader ran q on table t and holds the channel of handle h on the tree T of
+   the index q reads (T represents that index: abs_tree T = cmap code index; code: the identity of the stored object,
+   separating the objects bound to one key before and after, e.g. the injective obj_code, or o_rev). The next write
+   transaction performs the writes ws; on that index its part.Txn performs ops and commits a tree representing the
+   index of t' = twrun t ws (such ops exist: C06_write_txn_tree_ops). If q's answer on t' differs from the answer the
+   reader got, the channel the reader holds is in the set closed by the Notify that write_txn.go Commit issues for
+   that part.Txn (after tx.Commit()): closed no later than the return of the Commit that changes the result. *)
+Theorem C06_changed_result_closes_query_channel : forall code d d' tab tab' q ik h t ws T next ops,
+  q_handle q = Some (ik, h) -> idx_sorted t ->
+  tree_inv T next -> abs_tree T = cmap code (index_of ik t) ->
+  let xe := fold_left wstep ops (tree_txn T next) in
+  abs_tree (snd (txn_commit xe)) = cmap code (index_of ik (twrun t ws)) ->
+  code_separates code (index_of ik t) (index_of ik (twrun t ws)) ->
+  run_query d tab q t <> run_query d' tab' q (twrun t ws) ->
+  In (h_chan T h) (snd (txn_notify (fst (txn_commit xe)))).
+Proof. exact changed_result_closes_query_channel. Qed.
+Print Assumptions C06_changed_result_closes_query_channel.
+
+Theorem C06_injective_code : (forall a b, obj_code a = obj_code b -> a = b) /\
+  (forall m m', code_separates obj_code m m').
+Proof. exact (conj obj_code_inj obj_code_separates). Qed.
+Print Assumptions C06_injective_code.
+
+Theorem C06_write_txn_tree_ops : forall code t ws ik, exists ops, forall T next,
+  tree_ok T -> abs_tree T = cmap code (index_of ik t) ->
+  abs_tree (snd (txn_commit (fold_left wstep ops (tree_txn T next)))) = cmap code (index_of ik (twrun t ws)).
+Proof. exact write_txn_tree_ops. Qed.
+Print Assumptions C06_write_txn_tree_ops.
+
+(* (5) over HISTORIES: t, t' any two tables with sorted indexes (the table the reader queried, the table any number of
+   committed write transactions later); txns: the chain of part.Txns committed on the index's tree in between (each
+   begun on the tree committed by the previous one, after `gap` channel allocations elsewhere). If q's answer differs
+   between t and t', the Notify of one of these transactions closed the channel the reader holds: NO MISSED CHANGE. *)
+Theorem C06_changed_result_closes_query_channel_history : forall code d d' tab tab' q ik h t t' T next txns,
+  q_handle q = Some (ik, h) -> om_sorted (index_of ik t) -> om_sorted (index_of ik t') ->
+  tree_inv T next -> abs_tree T = cmap code (index_of ik t) ->
+  abs_tree (fst (chain_end T next txns)) = cmap code (index_of ik t') ->
+  code_separates code (index_of ik t) (index_of ik t') ->
+  run_query d tab q t <> run_query d' tab' q t' ->
+  exists cl, In cl (chain_closed T next txns) /\ In (h_chan T h) cl.
+Proof. exact changed_result_closes_query_channel_chain. Qed.
+Print Assumptions C06_changed_result_closes_query_channel_history.
+
+(* a handle that a transaction does not close is still the handle the tree it commits returns for the same query *)
+Theorem C06_handle_closed_or_kept : forall t next ops h,
+  tree_inv t next ->
+  let xe := fold_left wstep ops (tree_txn t next) in
+  In (h_chan t h) (snd (txn_notify xe)) \/ h_chan (snd (txn_commit xe)) h = h_chan t h.
+Proof. exact handle_closed_or_kept. Qed.
+Print Assumptions C06_handle_closed_or_kept.
+
+(* NON-VACUITY: a table with a non-unique index, objects a (key "x") and b (key "y"). A reader lists "y": [b], and
+   holds the channel of Prefix(escaped "y") on the index's tree (channel 4). The next write transaction updates a so
+   that it gains the key "y": a NEWLY QUALIFIES for the List query. The footprint key nuk "a" "y" is new in the index
+   (absent before, bound after), the answer changes to [a; b], all hypotheses of
+   C06_changed_result_closes_query_channel hold, and channel 4 is in the set closed by the commit. *)
+Example C06_nonvacuous_newly_qualifies :
+  q_handle ex_q = Some (INn, HPrefix (enc [121])) /\
+  idx_sorted ex_t /\ tree_inv ex_T 10 /\
+  abs_tree ex_T = cmap o_rev (index_of INn ex_t) /\
+  abs_tree (snd (txn_commit (fold_left wstep ex_ops (tree_txn ex_T 10)))) = cmap o_rev (index_of INn (twrun ex_t ex_ws)) /\
+  code_separates o_rev (index_of INn ex_t) (index_of INn (twrun ex_t ex_ws)) /\
+  q_list INn [121] ex_t = [mkO ex_b 2] /\
+  q_list INn [121] (twrun ex_t ex_ws) = [mkO ex_a2 3; mkO ex_b 2] /\
+  fp ex_q (nuk [97] [121]) = true /\
+  om_get (nuk [97] [121]) (index_of INn ex_t) = None /\
+  om_get (nuk [97] [121]) (index_of INn (twrun ex_t ex_ws)) = Some (mkO ex_a2 3) /\
+  h_chan ex_T (HPrefix (enc [121])) = 4 /\
+  In 4 (snd (txn_notify (fst (txn_commit (fold_left wstep ex_ops (tree_txn ex_T 10)))))).
+Proof. exact compose_nonvacuous. Qed.
+
+(* and the conclusion obtained FROM the theorem for this instance *)
+Example C06_nonvacuous_by_theorem :
+  In (h_chan ex_T (HPrefix (enc [121])))
+     (snd (txn_notify (fst (txn_commit (fold_left wstep ex_ops (tree_txn ex_T 10)))))).
+Proof.
+  destruct compose_nonvacuous as (Hq & S & HI & Ea & Ea' & Hs & L1 & L2 & _).
+  apply (C06_changed_result_closes_query_channel o_rev (init_db 1) (init_db 1) 0%nat 0%nat ex_q INn _ ex_t ex_ws ex_T 10 ex_ops
+           Hq S HI Ea Ea' Hs).
+  cbn [run_query ex_q]. rewrite L1, L2. discriminate.
 Qed.
